@@ -8,8 +8,12 @@ correspondence: every re-layout method of the real `MultiImage` (to_vector/from_
 oracle: the property's own sentence on the real code: each inverse pair returns exactly what was
   put in (by key, plus D and is_torus); chains of operations that compose to the identity by
   construction; jit / vmap / tree_flatten identity round trips; copy.
-save/load ("modelled only"): real models are saved to a temporary file outside /repo and /verif,
-  loaded into a differently initialised model of the same structure and compared bit for bit.
+save/load: (a) real models are saved to a temporary file outside /repo and /verif, loaded into a
+  differently initialised model of the same structure and compared bit for bit (oracle);
+  (b) `ml.save` / `ml.load` against the Lean model of the equinox leaf serialisation
+  (Model/C13Save.lean, theorems in Properties/C13Save.lean): the records of the written file and the
+  loaded pytree (or the rejection) are compared exactly on small modules with mixed leaves and on
+  templates that differ in shape / dtype / leaf type / leaf count / field order.
 """
 from __future__ import annotations
 
@@ -969,6 +973,444 @@ def check_extra_inverses(ctx: Ctx, n: int):
             ctx.violation("oracle", "to_vector(from_vector(v, template)) != v (the template only provides the layout)", case2)
 
 
+# --------------------------------------------------------------------------------------------
+# save / load against the Lean model of eqx.tree_serialise_leaves / tree_deserialise_leaves
+# (Model/C13Save.lean, driver ops c13.save_load / c13.save / c13.load)
+
+
+def _bits(a) -> list:
+    """row-major numbers of a numpy array: values for bool/int/object(int), IEEE bit patterns for floats"""
+    a = np.ascontiguousarray(np.asarray(a)).reshape(-1)
+    if a.dtype.kind == "f":
+        a = a.view({2: np.uint16, 4: np.uint32, 8: np.uint64}[a.dtype.itemsize])
+    return [int(v) for v in a.tolist()]
+
+
+def _f64_bits(x: float) -> int:
+    import struct
+    return struct.unpack("<Q", struct.pack("<d", x))[0]
+
+
+class _Tokens:
+    """identity tokens for non-serialised leaves (functions, strings, ...): same object -> same token"""
+
+    def __init__(self):
+        self.by_id = {}
+        self.keep = []
+        self.defs = []
+
+    def tag(self, x, td1) -> str:
+        """node tag = type + index of the one-level tree definition up to jax's own equality (which
+        compares the aux data: dict keys, field names, static fields)"""
+        for i, d in enumerate(self.defs):
+            if d == td1:
+                return f"{type(x).__name__}#{i}"
+        self.defs.append(td1)
+        return f"{type(x).__name__}#{len(self.defs) - 1}"
+
+    def __call__(self, obj) -> str:
+        if isinstance(obj, str):
+            return "str:" + obj
+        k = id(obj)
+        if k not in self.by_id:
+            self.by_id[k] = f"{type(obj).__name__}#{len(self.by_id)}"
+            self.keep.append(obj)  # keep alive: ids are not reused
+        return self.by_id[k]
+
+
+def pt_of(x, tok: _Tokens) -> dict:
+    """a real pytree as the model's PT (one jax node level at a time; None is a childless node)"""
+    import jax
+    import jax.tree_util as jtu
+
+    td = jtu.tree_structure(x)
+    if td.num_nodes == 1 and td.num_leaves == 1:
+        if isinstance(x, jax.Array):
+            a = np.asarray(x)
+            return {"leaf": {"kind": "arr", "cls": "jax", "dtype": str(a.dtype), "shape": list(a.shape),
+                             "data": _bits(a)}}
+        if isinstance(x, np.ndarray):
+            return {"leaf": {"kind": "arr", "cls": "np", "dtype": str(x.dtype), "shape": list(x.shape),
+                             "data": _bits(x)}}
+        if isinstance(x, bool):
+            return {"leaf": {"kind": "bool", "v": x}}
+        if isinstance(x, int):
+            return {"leaf": {"kind": "int", "v": x}}
+        if isinstance(x, float):
+            return {"leaf": {"kind": "float", "bits": _f64_bits(x)}}
+        return {"leaf": {"kind": "static", "id": tok(x)}}
+    children, td1 = jtu.tree_flatten(x, is_leaf=lambda y: y is not x)
+    return {"tag": tok.tag(x, td1), "children": [pt_of(c, tok) for c in children]}
+
+
+def read_records(path) -> list:
+    """the .npy records of a file written by ml.save"""
+    out = []
+    with open(path, "rb") as f:
+        while True:
+            try:
+                a = np.load(f, allow_pickle=True)  # our own file; object records = huge Python ints
+            except EOFError:
+                break
+            out.append({"dtype": str(a.dtype), "shape": list(a.shape), "data": _bits(a)})
+    return out
+
+
+def pt_leaves(j: dict) -> list:
+    if "leaf" in j:
+        return [j["leaf"]]
+    return [l for c in j["children"] for l in pt_leaves(c)]
+
+
+def pt_struct(j: dict):
+    if "leaf" in j:
+        return "*"
+    return (j["tag"], tuple(pt_struct(c) for c in j["children"]))
+
+
+def same_layout(mj: dict, tj: dict) -> bool:
+    """hypotheses of load_save_eq, decided independently in Python: same tree definition; leaf by
+    leaf the same Python type, for arrays the same class, dtype and shape; same static leaves"""
+    if pt_struct(mj) != pt_struct(tj):
+        return False
+    lm, lt = pt_leaves(mj), pt_leaves(tj)
+    if len(lm) != len(lt):
+        return False
+    for a, b in zip(lm, lt):
+        if a["kind"] != b["kind"]:
+            return False
+        if a["kind"] == "arr" and (a["cls"], a["dtype"], a["shape"]) != (b["cls"], b["dtype"], b["shape"]):
+            return False
+        if a["kind"] == "static" and a["id"] != b["id"]:
+            return False
+    return True
+
+
+def saveable(mj: dict) -> bool:
+    """Leaf.wf: Python ints in the range numpy stores without pickling"""
+    return all(not (l["kind"] == "int" and not (-2 ** 63 <= l["v"] < 2 ** 64)) for l in pt_leaves(mj))
+
+
+def json_key(j) -> str:
+    import hashlib
+    import json
+    return hashlib.sha1(json.dumps(j, sort_keys=True).encode()).hexdigest()[:16]
+
+
+def check_save_load_model(ctx: Ctx, n_random: int):
+    import copy
+    import jax
+    import jax.numpy as jnp
+    import equinox as eqx
+    from typing import Any, Callable
+
+    import ginjax.geometric as geom
+    import ginjax.ml as ml
+
+    rng = ctx.rng
+    D = 2
+    ops = geom.make_all_operators(D)
+    inv_filters = geom.get_invariant_filters([3], [0, 1], [0, 1], D, ops)
+    inv_shapes = {k: tuple(np.asarray(v).shape) for k, v in inv_filters.items()}
+
+    class Box(eqx.Module):
+        items: list
+        cfg: dict
+        act: Callable
+        scale: Any
+        label: str = eqx.field(static=True)
+
+    class P1(eqx.Module):
+        w1: jax.Array
+        w2: jax.Array
+
+    class P2(eqx.Module):
+        w2: jax.Array
+        w1: jax.Array
+
+    fns = [jax.nn.relu, jax.nn.gelu, jnp.tanh, (lambda v: v), abs]
+    jax_dtypes = ["float32", "int32", "bool", "float16", "uint8", "int8"]
+    np_dtypes = ["float64", "int64", "float32", "bool", "int32", "uint64"]
+    floats = [0.0, -0.0, float("inf"), float("-inf"), 1e300, 5e-324, 2.5, -7.75, 1e-5, 3.0, float("nan")]
+    ints = [0, 1, -1, 7, 2 ** 31 - 1, 2 ** 31, -2 ** 31 - 1, 2 ** 53 + 1, 2 ** 63 - 1, 2 ** 63, 2 ** 64 - 1, -2 ** 63]
+
+    def rand_shape():
+        r = int(rng.integers(0, 4))
+        return [int(rng.integers(1, 4)) for _ in range(r)]
+
+    def rand_leaf_spec():
+        u = rng.random()
+        if u < 0.30:
+            return ["jax", jax_dtypes[int(rng.integers(0, len(jax_dtypes)))], rand_shape()]
+        if u < 0.42:
+            return ["np", np_dtypes[int(rng.integers(0, len(np_dtypes)))], rand_shape()]
+        if u < 0.54:
+            return ["pyfloat"]
+        if u < 0.66:
+            return ["pyint"]
+        if u < 0.76:
+            return ["pybool"]
+        if u < 0.84:
+            return ["none"]
+        if u < 0.93:
+            return ["fn", int(rng.integers(0, len(fns)))]
+        return ["str", "name%d" % int(rng.integers(0, 3))]
+
+    def rand_spec(depth):
+        u = rng.random()
+        if depth <= 0 or u < 0.35:
+            return rand_leaf_spec()
+        if u < 0.50:
+            return ["list", [rand_spec(depth - 1) for _ in range(int(rng.integers(0, 4)))]]
+        if u < 0.60:
+            return ["tuple", [rand_spec(depth - 1) for _ in range(int(rng.integers(1, 3)))]]
+        if u < 0.72:
+            keys = list(rng.permutation(["b", "a", "c", "z"])[: int(rng.integers(1, 4))])
+            return ["dict", [[str(k), rand_spec(depth - 1)] for k in keys]]
+        if u < 0.82:
+            return ["mi"]
+        return ["box", ["list", [rand_spec(depth - 1) for _ in range(int(rng.integers(1, 3)))]],
+                ["dict", [["k", rand_spec(depth - 1)]]], ["fn", int(rng.integers(0, len(fns)))],
+                rand_leaf_spec(), "L%d" % int(rng.integers(0, 2))]
+
+    def rand_array(dtype, shape):
+        n = int(np.prod(shape)) if shape else 1
+        if dtype == "bool":
+            a = rng.integers(0, 2, n).astype(bool)
+        elif dtype.startswith("float"):
+            a = (rng.normal(size=n) * 10.0 ** int(rng.integers(-3, 4))).astype(dtype)
+        elif dtype == "uint64":
+            a = rng.integers(0, 2 ** 64, n, dtype=np.uint64)
+        elif dtype == "int64":
+            a = rng.integers(-2 ** 63, 2 ** 63, n, dtype=np.int64)
+        else:
+            info = np.iinfo(dtype)
+            a = rng.integers(int(info.min), int(info.max) + 1, n).astype(dtype)
+        return a.reshape(shape)
+
+    def build(spec):
+        k = spec[0]
+        if k == "jax":
+            return jnp.asarray(rand_array(spec[1], spec[2]))
+        if k == "np":
+            return rand_array(spec[1], spec[2])
+        if k == "pyfloat":
+            return float(floats[int(rng.integers(0, len(floats)))]) if rng.random() < 0.6 else float(rng.normal())
+        if k == "pyint":
+            return int(ints[int(rng.integers(0, len(ints)))]) if rng.random() < 0.6 else int(rng.integers(-1000, 1000))
+        if k == "pyhuge":
+            return [2 ** 64, -2 ** 63 - 1][int(rng.integers(0, 2))]
+        if k == "pybool":
+            return bool(rng.integers(0, 2))
+        if k == "none":
+            return None
+        if k == "fn":
+            return fns[spec[1]]
+        if k == "str":
+            return spec[1]
+        if k == "list":
+            return [build(c) for c in spec[1]]
+        if k == "tuple":
+            return tuple(build(c) for c in spec[1])
+        if k == "dict":
+            return {kk: build(c) for kk, c in spec[1]}
+        if k == "mi":
+            if rng.random() < 0.5:
+                return inv_filters
+            return geom.MultiImage({kk: jnp.asarray(rng.normal(size=sh).astype(np.float32))
+                                    for kk, sh in inv_shapes.items()}, D)
+        if k == "box":
+            return Box(build(spec[1]), build(spec[2]), build(spec[3]), build(spec[4]), spec[5])
+        raise ValueError(k)
+
+    def leaf_paths(spec, path=()):
+        k = spec[0]
+        if k in ("list", "tuple"):
+            return [q for i, c in enumerate(spec[1]) for q in leaf_paths(c, path + (1, i))]
+        if k == "dict":
+            return [q for i, (_, c) in enumerate(spec[1]) for q in leaf_paths(c, path + (1, i, 1))]
+        if k == "box":
+            return [q for i in (1, 2, 3, 4) for q in leaf_paths(spec[i], path + (i,))]
+        if k == "mi":
+            return []
+        return [path]
+
+    def list_paths(spec, path=()):
+        k = spec[0]
+        out = [path] if k == "list" else []
+        if k in ("list", "tuple"):
+            out += [q for i, c in enumerate(spec[1]) for q in list_paths(c, path + (1, i))]
+        elif k == "dict":
+            out += [q for i, (_, c) in enumerate(spec[1]) for q in list_paths(c, path + (1, i, 1))]
+        elif k == "box":
+            out += [q for i in (1, 2, 3, 4) for q in list_paths(spec[i], path + (i,))]
+        return out
+
+    def get_at(spec, path):
+        for i in path:
+            spec = spec[i]
+        return spec
+
+    def set_at(spec, path, val):
+        if not path:
+            return val
+        get_at(spec, path[:-1])[path[-1]] = val
+        return spec
+
+    def perturb(spec, how):
+        """template spec from the saved model's spec"""
+        t = copy.deepcopy(spec)
+        paths = leaf_paths(t)
+        arrs = [q for q in paths if get_at(t, q)[0] in ("jax", "np")]
+        if how == "shape" and arrs:
+            l = get_at(t, arrs[int(rng.integers(0, len(arrs)))])
+            sh = list(l[2])
+            u = rng.random()
+            if sh and u < 0.6:
+                i = int(rng.integers(0, len(sh)))
+                sh[i] = sh[i] + 1 if (rng.random() < 0.5 or sh[i] == 1) else sh[i] - 1
+            elif len(sh) >= 2 and sh != sh[::-1] and u < 0.8:
+                sh = sh[::-1]
+            else:
+                sh = sh + [1]
+            l[2] = sh
+        elif how == "dtype" and arrs:
+            l = get_at(t, arrs[int(rng.integers(0, len(arrs)))])
+            pool = [d for d in (jax_dtypes if l[0] == "jax" else np_dtypes) if d != l[1]]
+            l[1] = pool[int(rng.integers(0, len(pool)))]
+        elif how == "class" and arrs:
+            l = get_at(t, arrs[int(rng.integers(0, len(arrs)))])
+            l[0] = "np" if l[0] == "jax" else "jax"
+            if l[0] == "jax" and l[1] not in jax_dtypes:
+                l[1] = {"float64": "float32", "int64": "int32", "uint64": "int32"}[l[1]]
+        elif how == "retype" and paths:
+            q = paths[int(rng.integers(0, len(paths)))]
+            old = get_at(t, q)
+            if old[0] in ("pyfloat", "pyint", "pybool") and rng.random() < 0.7:
+                pool = [["pyfloat"], ["pyint"], ["pybool"], ["jax", "float32", []], ["jax", "int32", []],
+                        ["np", "float64", []], ["np", "int64", [1]]]
+                new = pool[int(rng.integers(0, len(pool)))]
+            elif old[0] in ("jax", "np") and int(np.prod(old[2])) == 1 and rng.random() < 0.7:
+                new = [["pyfloat"], ["pyint"], ["pybool"]][int(rng.integers(0, 3))]
+            else:
+                new = rand_leaf_spec()
+            t = set_at(t, q, new)
+        elif how == "static":
+            st = [q for q in paths if get_at(t, q)[0] == "fn"]
+            if st:
+                l = get_at(t, st[int(rng.integers(0, len(st)))])
+                l[1] = (l[1] + 1 + int(rng.integers(0, len(fns) - 1))) % len(fns)
+        elif how in ("add", "drop"):
+            lists = list_paths(t)
+            if lists:
+                node = get_at(t, lists[int(rng.integers(0, len(lists)))])
+                if how == "add":
+                    node[1].append(rand_leaf_spec())
+                elif node[1]:
+                    node[1].pop(int(rng.integers(0, len(node[1]))))
+        return t
+
+    cases = []  # (name, model, template)
+
+    # fixed cases ---------------------------------------------------------------------------
+    def mixed(v):
+        return Box([jnp.asarray(np.array([1.5 * v, -2.0], np.float32)), jnp.asarray(np.array([[3 * v, 4]], np.int32)),
+                    jnp.asarray(np.array([True, v > 1])), None, np.array([v, 2 ** 40], np.int64)],
+                   {"eps": 1e-5 * v, "n": 3 * v, "on": v > 1, "nothing": None, "name": "conv",
+                    "inner": Box([jnp.asarray(np.float16(v))], {}, jnp.tanh, 2 * v, "inner")},
+                   jax.nn.relu, 0.5 * v, "outer")
+
+    def w(*v):
+        return jnp.asarray(np.array(v, np.float32))
+
+    cases.append(("mixed-leaves", mixed(1), mixed(2)))
+    cases.append(("permuted-fields", P1(w(1, 2), w(3, 4)), P2(w(0, 0), w(0, 0))))
+    cases.append(("long-file", [w(5), w(6, 7)], [w(0)]))
+    cases.append(("short-file", [w(5)], [w(0), w(0, 0)]))
+    cases.append(("shape-mismatch", {"w": w(1, 2)}, {"w": w(0, 0, 0)}))
+    cases.append(("dtype-mismatch", {"w": w(1, 2)}, {"w": jnp.asarray(np.array([0, 0], np.int32))}))
+    cases.append(("scalar-unchecked", [2.5, 7], [0, False]))
+    cases.append(("template-static-kept", Box([w(9)], {}, jax.nn.relu, 1.0, "l"), Box([w(0)], {}, jnp.tanh, 2.0, "l")))
+    cases.append(("huge-int-saved-not-loadable", [2 ** 64, w(1)], [0, w(0)]))
+    cases.append(("invariant-filters", {"f": inv_filters, "b": w(1)},
+                  {"f": geom.MultiImage({kk: jnp.zeros(sh, jnp.float32) for kk, sh in inv_shapes.items()}, D),
+                   "b": w(0)}))
+    in_sig = geom.Signature((((0, 0), 2), ((1, 0), 1)))
+    out_sig = geom.Signature((((1, 0), 1), ((0, 1), 1)))
+    try:
+        k1, k2 = jax.random.split(jax.random.PRNGKey(ctx.seed + 5))
+        cases.append(("ConvContract", ml.ConvContract(in_sig, out_sig, inv_filters, use_bias=True, key=k1),
+                      ml.ConvContract(in_sig, out_sig, inv_filters, use_bias=True, key=k2)))
+        cases.append(("GroupNorm", ml.GroupNorm(in_sig, D, 1, eps=1e-2), ml.GroupNorm(in_sig, D, 1, eps=1e-5)))
+    except Exception as e:  # constructing the layers is not what this check is about
+        ctx.hist("save_load_model", f"layer could not be built: {type(e).__name__}")
+
+    # random cases --------------------------------------------------------------------------
+    hows = ["none", "none", "none", "shape", "dtype", "class", "retype", "retype", "static", "add", "drop"]
+    for _ in range(n_random):
+        spec = ["box", ["list", [rand_spec(2) for _ in range(int(rng.integers(1, 4)))]],
+                ["dict", [["k", rand_spec(1)], ["m", rand_spec(2)]]], ["fn", int(rng.integers(0, len(fns)))],
+                rand_leaf_spec(), "root"]
+        if rng.random() < 0.04:
+            spec[1][1].append(["pyhuge"])
+        how = hows[int(rng.integers(0, len(hows)))]
+        tspec = perturb(spec, how)
+        if rng.random() < 0.15:
+            tspec = perturb(tspec, hows[int(rng.integers(3, len(hows)))])
+            how += "+"
+        try:
+            cases.append((f"random/{how}", build(spec), build(tspec)))
+        except Exception as e:
+            ctx.hist("save_load_model", f"case could not be built: {type(e).__name__}: {e}"[:120])
+
+    with tempfile.TemporaryDirectory(prefix="ginjax_c13_sl_") as tmp:
+        for n, (name, m, t) in enumerate(cases):
+            tok = _Tokens()
+            mj, tj = pt_of(m, tok), pt_of(t, tok)
+            path = os.path.join(tmp, f"m{n}.eqx")
+            ml.save(path, m)
+            real_chunks = read_records(path)
+            try:
+                loaded = ml.load(path, t)
+                real = ["ok", pt_of(loaded, tok)]
+            except Exception as e:  # whatever the real code raises is a rejection
+                real = ["reject", f"{type(e).__name__}: {e}"[:200]]
+            try:
+                out = ctx.driver.call("c13.save_load", model=mj, template=tj)
+                model = ["ok", out["result"]]
+                model_chunks = out["chunks"]
+            except DriverReject as e:
+                msg = str(e)
+                if msg.startswith("unmodelled"):
+                    ctx.hist("save_load_model", f"{name}: skipped ({msg[:60]})")
+                    continue
+                model = ["reject", msg]
+                model_chunks = ctx.driver.call("c13.save", model=mj)["chunks"]
+            layout = same_layout(mj, tj) and saveable(mj)
+            n_ser = sum(1 for l in pt_leaves(mj) if l["kind"] != "static")
+            kinds = {(l["kind"], l.get("cls"), l.get("dtype")) for l in pt_leaves(mj) if l["kind"] != "static"}
+            ctx.hist("save_load_model",
+                     f"{name}: real {real[0]}, model {model[0]}" + (" [same layout]" if layout else ""))
+            ctx.case(("save_load_model", name, json_key(mj), json_key(tj)),
+                     n_ser >= 2 and len(kinds) >= 2 and mj != tj,
+                     sample={"kind": "save_load_model", "case": name, "real": real[0], "model": model[0],
+                             "same_layout": layout, "serialised_leaves": n_ser})
+            case = {"case": name, "model_pytree": mj, "template_pytree": tj, "real": real, "lean": model,
+                    "same_layout": layout}
+            # oracle: the property's sentence - a same-layout template gives back the saved model
+            if layout and (real[0] != "ok" or real[1] != mj):
+                ctx.violation("oracle", f"ml.load(ml.save(m), template of the same layout) is not m ({name})", case)
+                continue
+            if real_chunks != model_chunks:
+                case["file_records"] = real_chunks
+                case["lean_records"] = model_chunks
+                ctx.violation("correspondence",
+                              f"the file written by ml.save differs from the model's records ({name})", case)
+                continue
+            if real[0] != model[0] or (real[0] == "ok" and real[1] != model[1]):
+                ctx.violation("correspondence", f"ml.load differs from the Lean deserialise ({name})", case)
+
+
 def run(ctx: Ctx):
     import ginjax.geometric as geom
 
@@ -978,7 +1420,12 @@ def run(ctx: Ctx):
         "pairwise distinct axis extents, every element a distinct integer; (chain) random nested/"
         "sequential compositions of inverse pairs and identity steps (copy, jit, vmap, tree) that are "
         "the identity by construction, every step mirrored in the Lean model; (images) lists of "
-        "GeometricImages; (save_load) real models through a temporary file. distinct = distinct "
+        "GeometricImages; (save_load) real models through a temporary file; (save_load_model) fixed and random "
+        "pytrees with mixed leaves (jax/numpy arrays of several dtypes, Python float/int/bool, None, functions, "
+        "strings, nested modules, MultiImages of invariant filters) saved and loaded into a template that is "
+        "of the same layout or perturbed (shape, dtype, array class, leaf type, static leaf, added/dropped "
+        "leaf, permuted fields), non-trivial = at least two serialised leaves of two kinds and template != "
+        "model. distinct = distinct "
         "(kind, d, leading shape, signature, spatial dims, operations). non-trivial = at least two "
         "types or a tensor order >= 1 (pairs), additionally >= 2 operations (chains), >= 2 images "
         "(images), outputs of the two differently initialised models differ before loading (save_load); "
@@ -987,8 +1434,10 @@ def run(ctx: Ctx):
     ctx.assumptions = [
         "blocks hold integer-valued float32 numbers below 2^24 (the re-layouts only move values, so the "
         "value type is irrelevant; the theorems are for an arbitrary type)",
-        "save/load is modelled only: eqx.tree_serialise_leaves / tree_deserialise_leaves are exercised on "
-        "real models, no theorem is claimed for them",
+        "save/load: the theorems (load_save_eq, load_save_output_eq, load_rejects_*) are about the model of "
+        "eqx.tree_serialise_leaves / tree_deserialise_leaves in Model/C13Save.lean (records = dtype, shape, "
+        "numbers; x64 disabled); np.save/np.load's byte format itself, complex / bfloat16 / numpy-scalar "
+        "leaves and ShapeDtypeStruct templates are not modelled",
         "jax's flattening of a dict pytree (sorted keys) is modelled by treeFlatten and validated by the "
         "jit / vmap / tree_flatten runs",
         "BatchNorm state is outside save() (the code's own TODO) and outside this check",
@@ -1010,11 +1459,16 @@ def run(ctx: Ctx):
     check_extra_inverses(ctx, 12 if ctx.tier == "quick" else 120)
     check_save_load(ctx, ctx.tier)
     t3 = time.time()
+    check_save_load_model(ctx, 150 if quick else 3000)
+    t4 = time.time()
     ctx.notes["timing_s"] = {"pairs": round(t1 - t0, 1), "images+chains": round(t2 - t1, 1),
-                             "save_load": round(t3 - t2, 1)}
+                             "save_load": round(t3 - t2, 1),
+                             "save_load_model": round(t4 - t3, 1)}
     ctx.notes["chains_run"] = n
     ctx.notes["driver_calls"] = ctx.driver.calls
-    ctx.notes["save_load_note"] = "modelled only: exercised on real models, no theorem claimed"
+    ctx.notes["save_load_note"] = ("save_load: real models bit for bit; save_load_model: ml.save / ml.load vs the "
+                                   "Lean model (file records, loaded pytree or rejection), oracle = a template of "
+                                   "the same layout gives back the saved pytree exactly")
 
 
 def replay(ctx: Ctx, rep: dict):
